@@ -93,10 +93,14 @@ def h_pit_partition(H):
     H.ensure('partition:nas_parameters-matches-named', _same_set(H, list(model.nas_parameters()), got_nas) and _same_set(H, list(model.net_parameters()), got_net))
 
 
-def h_pit_op(H, op, value):
+def h_pit_op(H, op, value, before=None):
     model, nas, frozen, frozen_maskers, groups, layers = _pit(H)
     allp = [p for _, p in model.named_parameters()]
     net = [p for p in allp if not _has(H, nas, p)]
+    if before is not None:
+        # history: one of the three helpers ran earlier, then anything (the switches, the user) changed the flags arbitrarily - whatever the helper remembered
+        # of its own last request must not matter for the next call
+        getattr(model, before)()
     pre = _arbitrary_flags(H, allp, frozen)
     dc_pre = [l.discrete_cost for l in layers]
     if op == 'train_nas_only':
@@ -320,6 +324,7 @@ HARNESSES = [
                     _P + 'pit/nn/timestep_masker.py::PITTimestepMasker.trainable', _P + 'pit/nn/timestep_masker.py::PITFrozenTimestepMasker.trainable',
                     _P + 'pit/nn/dilation_masker.py::PITDilationMasker.trainable', _P + 'pit/nn/dilation_masker.py::PITFrozenDilationMasker.trainable'],
          quick=[dict(op=o, value=None) for o in ('train_nas_only', 'train_net_only', 'train_net_and_nas')] +
+               [dict(op=o, value=None, before=b) for o in ('train_nas_only', 'train_net_only', 'train_net_and_nas') for b in ('train_nas_only', 'train_net_only', 'train_net_and_nas')] +
                [dict(op=o, value=v) for o in ('train_features', 'train_rf', 'train_dilation', 'discrete_cost') for v in _B],
          thorough=[dict(op=o, value=None) for o in ('train_nas_only', 'train_net_only', 'train_net_and_nas')] +
                   [dict(op=o, value=v) for o in ('train_features', 'train_rf', 'train_dilation', 'discrete_cost') for v in _B]),
